@@ -1041,10 +1041,15 @@ peepPositive(Foam expr)
 		if (bintIsNeg(expr->foamBInt.BIntData))
 			new = foamNewBInt(bintNegate(expr->foamBInt.BIntData));
 		break;
-	case FOAM_SInt:
-		if (expr->foamSInt.SIntData < 0)
-			new = foamNewSInt(-expr->foamSInt.SIntData);
+	case FOAM_SInt: {
+		AInt n = expr->foamSInt.SIntData;
+		/* The most negative value has no positive counterpart:
+		 * negating it gives itself, and a + n <=> a - n would be
+		 * rewritten forever. */
+		if (n < 0 && n + 1 != -(AInt) (((UAInt) ~(UAInt) 0) >> 1))
+			new = foamNewSInt(-n);
 		break;
+	}
 	default:
 		break;
 	}
